@@ -9,4 +9,6 @@ bin/mcpcheck -property all -mutants > $o/reg_mutants_full$t.txt 2>&1; grep -E "m
 python3 tools/corpus_eval.py --props all -j 8 --out $o/reg_small$t.json benign-small/*/*.diff > $o/reg_small$t.txt 2>&1
 python3 tools/corpus_eval.py --props all -j 8 --out $o/reg_benign$t.json benign/*/*.diff > $o/reg_benign$t.txt 2>&1
 python3 tools/corpus_eval.py --props all -j 8 --out $o/reg_neutral$t.json benign-neutral/*/*.diff > $o/reg_neutral$t.txt 2>&1
+python3 tools/corpus_eval.py --props all -j 8 --out $o/reg_mixed$t.json benign-mixed/*/*.diff > $o/reg_mixed$t.txt 2>&1
+python3 tools/mixed_eval.py -j 8 --out $o/reg_pairs$t.json > $o/reg_pairs$t.txt 2>&1
 echo DONE >> $o/reg_benign$t.txt
